@@ -34,15 +34,16 @@ var witnesses = []witness{
 		op: "DISTINCT", observed: "2 non-NULL output rows for 1 '='-classes; class of row ids {1,2} appears 2 times; output [(s:a) (s:A)]"},
 	{id: "C07-distinct-collation", l: vcAI, r: vcAI, lv: []string{"'a'"}, rv: []string{"'A'"}, inList: []string{"'q'"},
 		op: "UNION", observed: "2 non-NULL output rows [(s:a) (s:A)], the '='-classes of the two inputs require 1"},
-	{id: "C07-countdistinct-collation", l: vcAI, r: vcAI, lv: []string{"'a'", "'A'"}, rv: []string{"'x'", "'x'"}, inList: []string{"'q'"},
+	{id: "C07-countdistinct-key", l: vcAI, r: vcAI, lv: []string{"'a'", "'A'"}, rv: []string{"'x'", "'x'"}, inList: []string{"'q'"},
 		op: "COUNT(DISTINCT)", observed: "result [(n:2)], number of '='-classes 1"},
-	{id: "C07-countdistinct-separator", l: vcBin, r: vcBin, lv: []string{"'a,'", "'a'"}, rv: []string{"'b'", "',b'"}, inList: []string{"'q'"},
+	{id: "C07-countdistinct-key", l: vcBin, r: vcBin, lv: []string{"'a,'", "'a'"}, rv: []string{"'b'", "',b'"}, inList: []string{"'q'"},
 		op: "COUNT(DISTINCT) 2col", observed: "result [(n:1)], number of '='-classes 2"},
 	{id: "C07-rowhash-nul-separator", l: vcBin, r: vcBin, lv: []string{`'a'`, `'a\0'`}, rv: []string{`'\0b'`, `'b'`}, inList: []string{"'q'"},
 		op: "GROUP BY 2col", observed: "groups (row ids) {1,2}, '='-classes {1} {2}"},
-	{id: "C07-except-empty-string", l: vcBin, r: vcBin, lv: []string{"''"}, rv: []string{"'b'"}, inList: []string{"'q'"},
+	// repaired in /repo (listed as C02-except-empty-string, status fixed): kept as a regression witness
+	{id: "C02-except-empty-string", l: vcBin, r: vcBin, lv: []string{"''"}, rv: []string{"'b'"}, inList: []string{"'q'"},
 		op: "EXCEPT", observed: "0 non-NULL output rows [], the '='-classes of the two inputs require 1"},
-	{id: "C07-setop-collation", l: vcAI, r: vcAI, lv: []string{"'a'"}, rv: []string{"'A'"}, inList: []string{"'q'"},
+	{id: "C07-distinct-collation", l: vcAI, r: vcAI, lv: []string{"'a'"}, rv: []string{"'A'"}, inList: []string{"'q'"},
 		op: "INTERSECT", observed: "0 non-NULL output rows [], the '='-classes of the two inputs require 1"},
 	{id: "C07-setop-decimal-scale", l: numKinds[5], r: numKinds[6], lv: []string{"1.5"}, rv: []string{"1.5"}, inList: []string{"7"},
 		op: "UNION", observed: "2 non-NULL output rows [(n:3/2) (n:3/2)], the '='-classes of the two inputs require 1"},
